@@ -23,13 +23,15 @@ EXPLANATION = (
     "strings of the same length); R16b conservation (the leaves of the scheme are exactly the tensors and deltas of the "
     "term, exponent-many times, numbers and symbols skipped, negative exponents and foreign objects refused; the final "
     "contraction carries the requested target indices - term.target or get_symbols(target_indices, target_spin) - in "
-    "the requested order; divisions by symbols, tensors or deltas are refused whatever other prefactors stand next to "
+    "the requested order, also for requested targets that are not the Einstein targets: an index that occurs once - in one "
+    "object, in an intermediate or in the last contraction - and is not requested is summed exactly once; divisions by symbols, tensors or deltas are refused whatever other prefactors stand next to "
     "them, numbers with negative exponent are plain prefactors; every operand is an object of the term or an earlier "
     "result read with exactly the index order it was stored with, also when a result-shaped intermediate meets "
     "remaining scalar factors under a permuted target order; call history: optimize_contractions / "
     "unoptimized_contraction called for the same objects with other targets, target order or limits one after another "
-    "on one path - module and class level state is evaluated state - return what each call returns alone); R16c split (index is target iff it occurs once in the contraction or is a target of the "
-    "term; both groups canonically sorted; result-shaped contraction adopts the requested order); R16d scaling "
+    "on one path - module and class level state is evaluated state - return what each call returns alone); R16c split (at every step of every scheme an index is kept iff it is a target of the term, or occurs once in "
+    "the contraction and is carried by another live object - the pool is simulated -, everything else is summed; every "
+    "Contraction built obeys the same rule for the external indices it was given, None = keep every single index; both groups canonically sorted; result-shaped contraction adopts the requested order); R16d scaling "
     "(computational = contracted + target and memory = target per space and in total, the chosen scheme minimises "
     "(max, multiplicity of max) per field total/general/virt/occ, computational before memory, over the generated "
     "candidates, never above the single simultaneous contraction; ScalingComponent orders by `total` first; call "
@@ -50,6 +52,9 @@ ASSUMPTIONS = [
     "search (which closed groups it offers, growth of groups to their fix point) is not decided",
     "evaluations that do not terminate within the evaluator's bounds or use constructs outside the evaluator are analysis "
     "errors (exit 2), not verdicts",
+    "terms for which every offered group exceeds max_itmd_dim while the simultaneous contraction of all objects is within "
+    "the limits are not evaluated: the library raises RuntimeError there (reported defect, not repaired), the rules have "
+    "no opinion on it",
     "an intermediate whose indices equal the requested target tuple is exempt from max_itmd_dim (as documented by the "
     "library: only non result-shaped inner contractions are restricted)",
 ]
@@ -473,18 +478,21 @@ def fmt(keys):
     return "".join(n + (f"({s})" if s else "") for n, s in keys) or "-"
 
 
-def ref_split(indices, term_targets):
-    """(summed, kept) index sets of one contraction: kept iff it occurs once or is a target of the term."""
+def ref_split(indices, term_targets, external=None):
+    """(summed, kept) index sets of one contraction.  An index is kept iff it is a target index of the term, or it occurs
+    once in the contraction and is carried by an object outside the contraction (`external`: the indices of all other live
+    objects; None = unknown, every index that occurs once is kept).  Everything else is summed - in particular an index
+    that occurs once and nowhere else (sum over a single tensor axis)."""
     cnt = {}
     for t in indices:
         for k in t:
             cnt[k] = cnt.get(k, 0) + 1
-    kept = {k for k, n in cnt.items() if n == 1 or k in term_targets}
+    kept = {k for k, n in cnt.items() if k in term_targets or (n == 1 and (external is None or k in external))}
     return set(cnt) - kept, kept
 
 
-def ref_contraction(indices, term_targets):
-    summed, kept = ref_split(indices, term_targets)
+def ref_contraction(indices, term_targets, external=None):
+    summed, kept = ref_split(indices, term_targets, external)
     contracted = tuple(sorted(summed, key=canon_key))
     target = tuple(sorted(kept, key=canon_key))
     if tuple(sorted(term_targets, key=canon_key)) == target:
@@ -611,6 +619,8 @@ def scheme_findings(spec, recs, final=True):
             if carriers:
                 out.append(("R16g", "closure", f"{r.show()}: the index {fmt([k])} is summed although {carriers} still carries "
                             "it (the group is not closed)"))
+        # split: against the indices the other live objects carry at this step
+        out.extend(contraction_findings(r, requested, {k for _, ix in rest for k in ix}, scaling=False))
         pool = rest + [(r.cname, r.target)]
         produced[r.cname] = r
     if sorted(leaves) != spec.leaves():
@@ -653,13 +663,15 @@ def scheme_findings(spec, recs, final=True):
     return out
 
 
-def contraction_findings(r, term_targets):
+def contraction_findings(r, term_targets, external=None, scaling=True):
     """one Contraction object against the reference split / order / scaling."""
     out = []
-    ctr, tgt = ref_contraction(r.indices, term_targets)
+    ctr, tgt = ref_contraction(r.indices, term_targets, external)
     if set(r.contracted) != set(ctr) or set(r.target) != set(tgt) or len(r.contracted) != len(ctr) or len(r.target) != len(tgt):
-        out.append(("R16c", "split", f"{r.show()}: expected sum({fmt(ctr)}) -> {fmt(tgt)} (an index is kept iff it occurs once "
-                    "in the contraction or is a target index of the term)"))
+        ext = "" if external is None else f"; the other live objects carry {fmt(sorted(external, key=canon_key))}"
+        out.append(("R16c", "split", f"{r.show()}: expected sum({fmt(ctr)}) -> {fmt(tgt)} (an index is kept iff it is a target "
+                    "index of the term, or occurs once in the contraction and on an object outside of it; every other index "
+                    f"is summed{ext})"))
     else:
         if r.contracted != ctr:
             out.append(("R16c", "sort", f"{r.show()}: summed indices not in canonical order {fmt(ctr)}"))
@@ -672,7 +684,7 @@ def contraction_findings(r, term_targets):
             out.append(("R16c", "store", f"{r.show()}: contracted/target are not stored as tuples (the search compares "
                         "`contraction.target` with the target tuple of the term)"))
     want = ref_scaling(r.contracted, r.target)
-    if r.scaling != want:
+    if scaling and r.scaling != want:
         out.append(("R16d", "components", f"{r.show()}: reported scaling {r.scaling}, true scaling {want} (computational = "
                     "summed + result indices, memory = result indices, per space and in total)"))
     return out
@@ -726,6 +738,22 @@ QUICK = [
     S("result-shaped intermediate, spin, permuted", [("A", "jb", 1, "tensor", "ab"), ("T", "ijab", 1, "tensor", "baab"),
                                                      ("C", "k", 1, "tensor", "a"), ("D", "k", 1, "tensor", "a")], target="ai", spin="ab"),
     S("number**-1 next to a symbol", [("2", "", -1, "number"), ("c", "", 1, "symbol"), ("t1", "ia"), ("Y", "ia")]),
+    # requested targets that are not the Einstein targets: an index that occurs once and is not requested is summed
+    S("sum over one axis", [("A", "ia")], target="i"),
+    S("sum over all axes", [("A", "ia")], target=""),
+    S("sum over two axes, permuted", [("V", "ijab")], target="bi"),
+    S("single index in both objects", [("A", "ia"), ("B", "jb")], target="ij"),
+    S("single index in both objects, permuted", [("A", "ia"), ("B", "jb")], target="ji"),
+    S("single index next to a shared one", [("A", "ia"), ("B", "ijb")], target="j"),
+    S("single index summed in the last step", [("A", "ik"), ("B", "kj"), ("C", "ja")], target="i"),
+    S("single index summed in an intermediate", [("A", "ik"), ("B", "kja"), ("C", "jb")], target="ba"),
+    S("single index summed in an intermediate dim 2", [("A", "ik"), ("B", "kja"), ("C", "jb")], target="ba", max_dim=2),
+    S("single indices everywhere", [("A", "ia"), ("B", "jb"), ("C", "ij")], target="a"),
+    S("single indices, scalar", [("A", "ij"), ("B", "jk"), ("C", "kl")], target=""),
+    S("single index with a square", [("t1", "ia", 2), ("Y", "jb")], target="j"),
+    S("single index with spin", [("A", "ia", 1, "tensor", "ab"), ("B", "ijb", 1, "tensor", "aab")], target="j", spin="a"),
+    S("single index n 2", [("A", "ia"), ("B", "ib"), ("C", "abc")], target="", max_n=2),
+    S("delta summed", [("delta", "ij"), ("f", "jk")], target="i"),
     S("n 2", [("f", "ij"), ("t1", "ja"), ("Y", "ab"), ("Z", "bk")], max_n=2),
     S("single", [("V", "ijab")]),
     S("single permuted", [("V", "ijab")], target="abij"),
@@ -782,8 +810,11 @@ IMPOSSIBLE = [
     S("hyper only n 2", [("A", "ijk"), ("B", "ijk"), ("C", "ijk")], max_n=2),
     S("dim 0", [("A", "ia"), ("B", "jb"), ("C", "ijab")], max_dim=0, max_n=2),
     S("shared by three n 2", [("A", "ia"), ("B", "ib"), ("C", "ic"), ("D", "abc")], max_n=2),
-    S("star dim 1", [("A", "ja"), ("B", "kb"), ("C", "lc"), ("D", "abc")], target="jkl", max_dim=1),
 ]
+# Not evaluated (no opinion): terms in which every group the search offers creates an intermediate above max_itmd_dim while
+# the single simultaneous contraction of all objects is within the limits (A_ij B_jk C_kl -> 'il', max_itmd_dim=1;
+# A_ja B_kb C_lc D_abc -> 'jkl', max_itmd_dim=1).  The library raises RuntimeError there (reported, not repaired); the
+# rules neither expect that error nor the simultaneous contraction.
 
 THOROUGH = [
     S("five chain", [("A", "ij"), ("B", "jk"), ("C", "kl"), ("D", "lm"), ("E", "mi")]),
@@ -913,7 +944,12 @@ def _findings(ev):
                 out.extend(scheme_findings(spec, ev.recs))
             term_targets = spec.requested()
             for r in ev.built():
-                out.extend(contraction_findings(r, term_targets))
+                ext = r.obj.attrs.get("_ctor", {}).get("external_indices")
+                if ext is not None:
+                    if not isinstance(ext, (list, tuple, set, frozenset, dict)):
+                        raise Malformed("R16a", f"Contraction(external_indices={show_val(ext)}): not a collection of indices")
+                    ext = {ev.run.world.key(x) for x in ext}
+                out.extend(contraction_findings(r, term_targets, ext))
             cands = ev.candidates() if ev.fname == "optimize_contractions" else None
             ev.n_cands = len(cands) if cands else 0
             if cands:
@@ -928,7 +964,7 @@ def _findings(ev):
                                     f"{min(ranks)} ((max, multiplicity) per field total, general, virt, occ; computational "
                                     "before memory; lowest wins)"))
             if ev.recs:
-                hyper = ref_scaling(*ref_contraction([ks for _, ks in spec.leaves()], term_targets))["computational"]["total"]
+                hyper = ref_scaling(*ref_contraction([ks for _, ks in spec.leaves()], term_targets, ()))["computational"]["total"]
                 worst = max(ref_scaling(r.contracted, r.target)["computational"]["total"] for r in ev.recs)
                 if worst > hyper:
                     out.append(("R16d", "bound", f"maximal computational scaling {worst} exceeds that of the single "
@@ -991,6 +1027,10 @@ CALL_HISTORY = [
      [dict(target="abc", max_n=5), dict(target="abc", max_n=4), dict(target="cba")]),
     ("spin", [("A", "ia", 1, "tensor", "ab"), ("B", "aj", 1, "tensor", "bb")],
      [dict(target="ji", spin="ba"), dict(target="ij", spin="ab")]),
+    # the same group of objects inside different terms: what the other objects carry decides what the group sums
+    ("group in two terms", [("A", "ia"), ("B", "jb"), ("C", "ab")],
+     [dict(target="ij"), dict(target="ij", objs=[("A", "ia"), ("B", "jb")]),
+      dict(target="ij", objs=[("A", "ia"), ("B", "jb"), ("D", "a")])]),
 ]
 
 
@@ -1048,7 +1088,8 @@ def r16b_history(ctx):
         for label, objs, reqs in CALL_HISTORY:
             if fname != "optimize_contractions":
                 reqs = [r for r in reqs if "max_n" not in r and "max_dim" not in r]
-            specs = [S(f"{label} {k}", objs, **r) for k, r in enumerate(reqs)]
+            specs = [S(f"{label} {k}", r.get("objs", objs), **{a: v for a, v in r.items() if a != "objs"})
+                     for k, r in enumerate(reqs)]
             seqs = [(a, b) for a in range(len(specs)) for b in range(len(specs)) if a != b]
             seqs += [tuple(range(len(specs))), tuple(reversed(range(len(specs))))] if len(specs) > 2 else []
             for seq in seqs:
@@ -1083,20 +1124,31 @@ def r16c(ctx):
     _rule_over_scenarios(ctx, rule, "every contraction splits/sorts its indices as the reference", 30)
     # decision table of the static split used by the group search
     fn = ctx.model.fn(CO + "Contraction._split_contracted_and_target")
-    table = [(("ij", "jk"), ""), (("ij", "jk"), "j"), (("ij", "ij"), "i"), (("iia",), ""), (("iia",), "i"), (("ia", "jb"), "ia"),
-             (("ijab", "abkl", "kc"), "ijc"), (("pq", "qp", "i"), ""), (("ij",), "ijk"), ((), "i"), (("", "i"), "")]
+    params = [p.arg for p in fn.args.args]
+    table = [(("ij", "jk"), "", None), (("ij", "jk"), "j", None), (("ij", "ij"), "i", None), (("iia",), "", None), (("iia",), "i", None),
+             (("ia", "jb"), "ia", None), (("ijab", "abkl", "kc"), "ijc", None), (("pq", "qp", "i"), "", None), (("ij",), "ijk", None),
+             ((), "i", None), (("", "i"), "", None),
+             # indices of the objects outside the contraction given: an index that occurs once is kept only if one of them
+             # carries it (or it is a target index of the term)
+             (("ia",), "i", ""), (("ia",), "", ""), (("ia",), "a", "i"), (("ia", "ijb"), "j", ""), (("ik", "kj"), "i", "ja"),
+             (("ik", "kj"), "i", ""), (("ia", "jb"), "ij", "ab"), (("ia", "jb"), "ij", "b"), (("ij", "jk"), "", "k"),
+             (("ijab", "abkl", "kc"), "ij", "lm"), (("pq", "i"), "", "i")]
     n = 0
     for as_list in (False, True):
-        for ops, tg in table:
-            run = Run(ctx.model, f"_split_contracted_and_target({ops}, {tg!r})")
+        for ops, tg, ext in table:
+            run = Run(ctx.model, f"_split_contracted_and_target({ops}, {tg!r}, {ext!r})")
             w = run.world
             conv = list if as_list else tuple
 
             def args():
-                return dict(indices=conv(tuple(w.indices(o)) for o in ops), term_target_indices=tuple(w.indices(tg)))
+                a = dict(indices=conv(tuple(w.indices(o)) for o in ops), term_target_indices=tuple(w.indices(tg)))
+                if ext is not None and "external_indices" in params:
+                    a["external_indices"] = set(w.indices(ext)) if as_list else tuple(w.indices(ext))
+                return a
             kind, v = run.call(fn, args)
             keys = [tuple((k, "") for k in split_names(o)) for o in ops]
-            want_c, want_t = ref_split(keys, {(k, "") for k in split_names(tg)})
+            want_c, want_t = ref_split(keys, {(k, "") for k in split_names(tg)},
+                                       None if ext is None else {(k, "") for k in split_names(ext)})
             ok = kind == "return" and isinstance(v, tuple) and len(v) == 2 and all(isinstance(x, (list, tuple)) for x in v)
             if ok:
                 try:
@@ -1105,10 +1157,12 @@ def r16c(ctx):
                 except Malformed:
                     ok = False
             n += 1
-            ctx.check(rule, fn, ok, f"split{ops} | targets '{tg}'",
-                      f"_split_contracted_and_target({ops}, term targets '{tg}') gives {show_val(v) if kind == 'return' else 'raise ' + str(v)}; "
+            extd = "" if ext is None else f", indices outside the contraction '{ext}'"
+            ctx.check(rule, fn, ok, f"split{ops} | targets '{tg}'{extd}",
+                      f"_split_contracted_and_target({ops}, term targets '{tg}'{extd}) gives "
+                      f"{show_val(v) if kind == 'return' else 'raise ' + str(v)}; "
                       f"expected (summed, kept) = ({fmt(sorted(want_c))}, {fmt(sorted(want_t))}), each index once",
-                      key=f"split table {ops} {tg} {'list' if as_list else 'tuple'}")
+                      key=f"split table {ops} {tg} {ext} {'list' if as_list else 'tuple'}")
     floor(ctx, rule, "rows of the split table", n, 20)
 
 
